@@ -235,6 +235,17 @@ Example C05_create_file_reuse_refuted :
   xattrs_of_a (create_file pr default_opts [[97]] mt [] [1] reuse_before) = Some [].
 Proof. exact create_file_reuse_refuted. Qed.
 
+(* The file system of Model/FSMeta.v gives a new entry the group of a set-group-ID directory (and a
+   new directory its set-group-ID bit), as Linux does.  C05_tar_untar_result holds over it: the
+   explicit chown and chmod of the writer put the archive's owner and mode back.  A writer that
+   skipped the chown for entries belonging to the user who runs the extraction would not: *)
+Example C05_lazy_chown_refuted :
+  let pr := mkProc 0 0 18 in
+  let mt := mkMeta 0 0 33188 5 in
+  owner_of_a (create_file_lazy_chown pr [[97]] mt [] [1] sgid_dir) = Some (0, 7) /\
+  owner_of_a (create_file pr default_opts [[97]] mt [] [1] sgid_dir) = Some (0, 0).
+Proof. exact create_file_lazy_chown_refuted. Qed.
+
 (* KNOWN FINDINGS, each for EVERY tree that contains such an object and every option set
    ([unpacked pr o t r]: r is the result of the run above). *)
 
@@ -402,3 +413,12 @@ Example C05_symlink_target_verbatim :
              (look [[108]] (run_model C05_pr default_opts C05_link_tree))
   = Some [115; 117; 98; 47; 46; 46; 47; 102; 47; 47].
 Proof. vm_compute. reflexivity. Qed.
+
+(* file contents are opaque bytes end to end (C05_archive_roundtrip, [restored]): zeros at the end stay *)
+Definition C05_zero_tail_tree : tree :=
+  TDir (mkAttrs 16877 0 0 1000 []) [ ([122], TFile (mkAttrs 33188 0 0 9 []) [7; 0; 0; 0; 0; 0; 0; 0]); ([123], TFile (mkAttrs 33188 0 0 9 []) [0; 0; 0; 0]) ].
+Example C05_zero_tail_kept :
+  option_map (fun e : fnode => match e with FFile _ d => d | _ => [] end) (look [[122]] (run_model C05_pr default_opts C05_zero_tail_tree)) = Some [7; 0; 0; 0; 0; 0; 0; 0] /\
+  option_map (fun e : fnode => match e with FFile _ d => d | _ => [] end) (look [[123]] (run_model C05_pr default_opts C05_zero_tail_tree)) = Some [0; 0; 0; 0].
+Proof. vm_compute. split; reflexivity. Qed.
+
